@@ -7,6 +7,7 @@ import (
 
 	"github.com/ipfs/go-cid"
 	unixfsnode "github.com/ipfs/go-unixfsnode"
+	"github.com/ipfs/go-unixfsnode/iter"
 	"github.com/ipld/go-ipld-prime/datamodel"
 	"github.com/ipld/go-ipld-prime/traversal"
 
@@ -48,7 +49,7 @@ func (c20) Runs(t Tier) int {
 }
 func (c20) RecordWidths() map[string]int { return nil }
 func (c20) RequiredProbes() []string {
-	return []string{"file-read", "file-preload", "dir-iterate", "dir-length", "dir-preload", "path-walk", "hamt-depth>=3", "file-depth>=3", "dedup-dag", "path-through-hamt"}
+	return []string{"file-read", "file-preload", "dir-iterate", "dir-iterate-typed", "dir-length", "dir-preload", "path-walk", "hamt-depth>=3", "file-depth>=3", "dedup-dag", "path-through-hamt"}
 }
 
 type c20Scenario struct {
@@ -168,7 +169,7 @@ func (c20) Run(ts *tape.Set, tier Tier) *Result {
 			maxN = 1200
 		}
 		spec := gen.DrawDirSpec(shape, gen.DirOpts{MaxN: maxN})
-		which := shape.Intn(4)
+		which := shape.Intn(5)
 		root, entries, err := gen.WriteShardedDir(st, spec)
 		if err != nil {
 			res.Skipped, res.SkipReason = true, err.Error()
@@ -218,6 +219,41 @@ func (c20) Run(ts *tape.Set, tier Tier) *Result {
 				}
 				if l := n.Length(); l != int64(len(entries)) {
 					return fmt.Errorf("Length() = %d, directory has %d entries", l, len(entries))
+				}
+				return nil
+			}
+		case 4:
+			// the typed accessor: Iterator() of the directory node (it has no
+			// error return, so it is only judged here, without faults: every
+			// entry once, shards requested in the same depth-first order)
+			sc.Op = "typed Iterator()"
+			res.probe("dir-iterate-typed")
+			op = func(w *world.World) error {
+				n, err := w.Reify(root)
+				if err != nil {
+					return err
+				}
+				ni, ok := n.(interface{ Iterator() *iter.UnixFSDir__Itr })
+				if !ok {
+					return fmt.Errorf("reified directory %T has no typed Iterator()", n)
+				}
+				it := ni.Iterator()
+				seen := map[string]bool{}
+				for steps := 0; !it.Done(); steps++ {
+					k, v := it.Next()
+					if k == nil || v == nil {
+						return fmt.Errorf("typed iterator yielded a nil pair at step %d of a complete directory", steps)
+					}
+					if seen[k.String()] {
+						return fmt.Errorf("typed iterator yielded %q twice", k.String())
+					}
+					seen[k.String()] = true
+					if steps > 4*len(entries)+64 {
+						return fmt.Errorf("iteration does not terminate")
+					}
+				}
+				if len(seen) != len(entries) {
+					return fmt.Errorf("typed iterator yielded %d entries, the directory has %d", len(seen), len(entries))
 				}
 				return nil
 			}
